@@ -1010,6 +1010,101 @@ def run_mixed(root, ctx, tier):
                                           "are not the windows of each recording, in the order of the recordings")
 
 
+# ---------------------------------------------------------------------------
+# records that were re-oriented after construction: the orientation step starts from the CURRENT heading
+
+REORIENT_MID = [30, 180]                      # intermediate headings, relative to the deployed one
+REORIENT_FINAL = [0, 30, 360, None]           # final requested orientation relative to the deployed heading
+REORIENT_HISTORIES = ["orient_sensor_to(a)", "preprocess(orient to a)", "orient_sensor_to(a+55); orient_sensor_to(a)"]
+
+
+def run_reoriented(root, ctx, tier):
+    """History on the SAME record object before the judged preprocess call: the user's orient_sensor_to, an
+    earlier preprocess with another orientation, or both.  The record handed to preprocess then has a current
+    heading (model: the last requested one) different from the deployed one; the judged call must equal the
+    reference pipeline applied to the record's samples as they are before the call, rotated from the CURRENT
+    heading.  Full product history x intermediate heading x final orientation x window x corners x detrend."""
+    rate, label, deploy = root["rate"], root["length"], root["deploy"]
+    dt = dt_of(rate)
+    k = RT.intervals("1", rate)
+    n = n_samples_of(label, k)
+    base = busy_components(n, rate, 4)
+    for hist in REORIENT_HISTORIES:
+        for mid in REORIENT_MID:
+            for fin in REORIENT_FINAL:
+                for window in ORIENT_WINDOWS:
+                    for corners in ORIENT_CORNERS:
+                        for detrend in ORIENT_DETREND:
+                            _reoriented_case(root, ctx, rate, dt, n, base, deploy, hist, mid, fin, window, corners, detrend)
+
+
+def _reoriented_case(root, ctx, rate, dt, n, base, deploy, hist, mid, fin, window, corners, detrend):
+    wlen = None if window is None else float(window)
+    a = deploy + mid
+    target = None if fin is None else deploy + fin
+    case = dict(rate=rate, dt=dt, n_samples=n, deployed_at=deploy, history=hist, a=a, orient_to=target,
+                window=window, corners=corners, detrend=detrend, records=BUSY_TEXT)
+    ctx.count("states")
+    rec = make_record({c: np.array(base[c]) for c in COMPONENTS}, dt, deploy)
+    if hist.startswith("preprocess"):
+        h = _call(lambda: hvsrpy.preprocess(rec, make_settings(window, corners, detrend, a)))
+    elif ";" in hist:
+        h = _call(lambda: (rec.orient_sensor_to(a + 55), rec.orient_sensor_to(a)))
+    else:
+        h = _call(lambda: rec.orient_sensor_to(a))
+    ctx.count("transitions")
+    if h[0] == "raised":
+        ctx.count("reoriented_history_refused")
+        return
+    current = a                                  # model of the heading: the last requested orientation
+    snap = {c: np.array(getattr(rec, c).amplitude) for c in COMPONENTS}
+    specs = [(snap, current)]
+    scale = max(float(np.max(np.abs(snap[c]))) for c in COMPONENTS)
+    obs = _call(lambda: hvsrpy.preprocess(rec, make_settings(window, corners, detrend, target)))
+    ctx.count("transitions")
+    exp = _call(lambda: pipeline(specs, dt, wlen, corners, detrend, target))
+    ctx.count("validated")
+    ctx.count("reoriented_cases")
+    filt = corners != [None, None]
+    detr = detrend not in (None, "none")
+    cls = ("filter" if filt else "nofilter") + "+" + ("detrend" if detr else "nodetrend") + "+orient"
+    site = "preprocess" if window is not None else "preprocess-unsplit"
+    if obs[0] == "raised" or exp[0] == "raised":
+        if obs[0] != exp[0] or obs[1] != exp[1]:
+            ctx.violation(f"C10:{site}:{cls}:reoriented-record:raises-unlike-primitives", root, detail=case,
+                          expected=exp[1:] if exp[0] == "raised" else f"{len(exp[1])} windows",
+                          observed=obs[1:] if obs[0] == "raised" else f"{len(obs[1])} windows",
+                          explanation="preprocess of a re-oriented record and the documented sequence of steps do "
+                                      "not fail alike")
+        return
+    got = [tuple(getattr(w, c).amplitude for c in COMPONENTS) for w in obs[1]]
+    back = target is not None and RR.same_direction(target, deploy) and not RR.same_direction(current, deploy)
+    ctx.outcome(("reoriented", cls, hist, fin, len(got)))
+    ctx.nontrivial_case(("reoriented", rate, deploy, hist, mid, fin, window, str(corners), detrend))
+    if back:
+        ctx.count("reoriented_back_to_deployed_heading")
+        w = _call(lambda: pipeline(specs, dt, wlen, corners, detrend, None))
+        if w[0] == "raised" or compare_windows(w[1], exp[1], exact=False, scale=scale) is not None:
+            ctx.count("reoriented_back_differs_from_unrotated")
+    text = compare_windows(got, exp[1], exact=False, scale=scale)
+    if text is None:
+        return
+    which = "reoriented-record:not-the-pipeline-from-the-current-heading"
+    if target is not None:
+        alt = _call(lambda: pipeline(specs, dt, wlen, corners, detrend, None))
+        if alt[0] == "ok" and compare_windows(got, alt[1], exact=False, scale=scale) is None:
+            which = "reoriented-record:orientation-step-skipped"
+        else:
+            alt = _call(lambda: pipeline([(snap, deploy)], dt, wlen, corners, detrend, target))
+            if alt[0] == "ok" and compare_windows(got, alt[1], exact=False, scale=scale) is None:
+                which = "reoriented-record:rotated-from-the-deployed-heading-not-the-current-one"
+    ctx.violation(f"C10:{site}:{cls}:{which}", root, detail=case,
+                  expected="the record as it is before the call (current heading a): " + ORIENT_EXPECTED,
+                  observed=text,
+                  explanation=f"preprocess of a record deployed at {deploy}, brought to {a} by {hist}, then asked for "
+                              f"{target}: {text}")
+
+
 def warm():
     global _SERVER
     from hvmc.engine import pristine
@@ -1042,6 +1137,9 @@ def roots(tier, seed):
     for rate, label in (ORIENT_CONFIGS[:2] if q else ORIENT_CONFIGS):
         for deploy in ORIENT_DEPLOY:
             out.append(dict(kind="orient", rate=rate, length=label, deploy=deploy))
+    for rate, label in (ORIENT_CONFIGS[:1] if q else ORIENT_CONFIGS):
+        for deploy in (ORIENT_DEPLOY[:4] if q else ORIENT_DEPLOY):
+            out.append(dict(kind="reoriented", rate=rate, length=label, deploy=deploy))
     for rate in RATES:
         out.append(dict(kind="zerophase", rate=rate))
     # no splitting: full product of the option dimensions under every (rate, record length)
@@ -1080,6 +1178,8 @@ def run_root(root, ctx, tier):
         run_order(root, ctx, tier)
     elif kind == "orient":
         run_orient(root, ctx, tier)
+    elif kind == "reoriented":
+        run_reoriented(root, ctx, tier)
     elif kind == "zerophase":
         run_zerophase(root, ctx, tier)
     elif kind == "history":
@@ -1098,7 +1198,13 @@ def finalize(ctx, tier):
         _SERVER.stop()
         _SERVER = None
     c = ctx.counters
-    for name in ("history_cases", "mixed_dt_cases"):
+    if c.get("reoriented_back_to_deployed_heading", 0) != c.get("reoriented_back_differs_from_unrotated", 0):
+        ctx.violation("C10:harness:non-vacuity:reoriented-back-to-deployed", dict(kind="non-vacuity"),
+                      observed=dict(evaluated=c.get("reoriented_back_to_deployed_heading", 0),
+                                    differs=c.get("reoriented_back_differs_from_unrotated", 0)),
+                      explanation="returning a re-oriented record to its deployed heading was not distinguishable "
+                                  "from leaving it as it is")
+    for name in ("history_cases", "mixed_dt_cases", "reoriented_cases", "reoriented_back_to_deployed_heading"):
         if not c.get(name, 0):
             ctx.violation(f"C10:harness:non-vacuity:{name}", dict(kind="non-vacuity"),
                           explanation=f"counter {name} is zero: the family never ran")
@@ -1224,4 +1330,18 @@ def describe(tier):     # noqa: F811 - the base description plus what later roun
         "bisection in the sorted record (values pairwise distinct)",
     ]
     d["rule"] = d["rule"] + " " + 'Family history: 3 (quick) / 7 rates x 2 windows x 2 lengths x option cases; before preprocess other TimeSeries of the same time step are filtered with the same corners and orders 3, 2, 8, split and detrended; the windows are compared bit for bit with those computed in a process without history. Family mixed-dt: lists of 3-5 recordings whose time steps follow the patterns aba, baab, abcab, aab; the result must be the concatenation of the single-recording results.'
+    nre = 4 if q else len(ORIENT_CONFIGS) * len(ORIENT_DEPLOY)
+    n_re = (nre * len(REORIENT_HISTORIES) * len(REORIENT_MID) * len(REORIENT_FINAL) * len(ORIENT_WINDOWS)
+            * len(ORIENT_CORNERS) * len(ORIENT_DETREND))
+    d["rule"] += (f" Family reoriented: {nre} (rate, record length, deployed heading) x histories on the same record "
+                  f"object {REORIENT_HISTORIES} with a = deployed + {REORIENT_MID} x final orientation = deployed + "
+                  f"{REORIENT_FINAL} x {{1 s windows, no splitting}} x {len(ORIENT_CORNERS)} corner pairs x "
+                  f"{len(ORIENT_DETREND)} detrend modes ({n_re} cases, one recording): the judged preprocess call "
+                  "must equal (rtol 1e-9) the reference pipeline applied to the record's samples as they are before "
+                  "the call, rotated from the CURRENT heading (the last requested one), not the deployed one.")
+    d["bounds"].update(reoriented_histories=REORIENT_HISTORIES, reoriented_intermediate=REORIENT_MID,
+                       reoriented_final=REORIENT_FINAL, reoriented_cases=n_re)
+    d["assumptions"].append("reoriented family: the state left by the history (rotated, possibly filtered / detrended "
+                            "in place by the earlier preprocess) is read from the record; its heading is modelled as "
+                            "the last requested orientation")
     return d
